@@ -675,6 +675,15 @@ def c06(tier):
     else:
         qs.append(mk('deferred_seq_queue_drain', 'c06_deferred.cpp', [], 1, seq=['vp_seq1'], final='vp_final', cover=1, defines=['EXPECT=3'], **seq))
         qs.append(mk('deferred_seq_direct_then_queue', 'c06_deferred.cpp', [], 1, seq=['vp_seq2'], final='vp_final', cover=1, defines=['EXPECT=2'], **seq))
+        # two threads, two rounds; container / packaged_task plumbing runs atomically (noinline), the protocol itself interleaves
+        NI = ['@_ZNSt6vectorISt10unique_ptr*', '@_ZNSt7promiseIvE7abandonEv', '@_ZNSt7promiseIiE7abandonEv', '@_ZN4gmlc10libguarded11void_runner*',
+              '@_ZN4gmlc10libguarded11type_runner*', '@_ZNSt13packaged_task*', '@_ZNSt12_Vector_base*']
+        def cq(name, threads, defines, order, cover):
+            return mk(name, 'c06_deferred.cpp', threads, 2, order=order, final='vp_final', cover=cover, defines=defines,
+                      opts={'yield_blocks': False, 'noinline': NI}, cflags=STUB, unwindset=EU, unwind=4, timeout=3400, solvers=('minisat', 'kissat'))
+        qs.append(cq('deferred_detach_reader_R2', [S1, Rd], ['NSUB1=1', 'NSUB2=0', 'KIND1=0'], (0, 1), 5))
+        qs.append(cq('deferred_reader_detach_R2', [S1, Rd], ['NSUB1=1', 'NSUB2=0', 'KIND1=0'], (1, 0), 5))
+        qs.append(cq('deferred_detach_detach_R2', [S1, S2], ['NSUB1=1', 'NSUB2=1', 'KIND1=0', 'KIND2=0'], (0, 1), 3))
     return qs
 
 
@@ -682,7 +691,7 @@ SPECS['C06'] = dict(queries=c06, assumptions=COMMON_ASSUMPTIONS + [
     "<future> is the harness-local replacement harness/stubstd/future (promise/future/packaged_task over mutex + condition_variable, documented contract); "
     "the real libstdc++ <future> keeps its state behind libstdc++.so entry points for which no IR exists",
     "quick tier: single-thread scenarios in which the queued path is forced by a shared handle held by the same thread (enqueue, pending flag, drain order, "
-    "exclusivity of the drain, futures); the interleavings of submitters, readers and drainers are NOT decided: two-thread queries (one modify_detach is ~70-100 visible steps over vector growth, packaged_task and shared state) exhausted memory in cbmc's propositional reduction [measured, 2 attempts]",
+    "exclusivity of the drain, futures); interleavings of submitters, readers and drainers are decided only in the thorough tier: two threads, two rounds, with the vector / packaged_task / promise plumbing run atomically (noinline) and symbolic-size allocations replaced by 64-byte blocks (without both, cbmc's propositional reduction ran out of memory) - about 15 min per query",
     "virtual run_task / packaged_task invocation run atomically (indirect calls); std::try_to_lock never fails spuriously"],
     outside=["every genuinely concurrent schedule (e.g. a drainer that cleared the pending flag but has not taken the lock yet while a direct-path submitter runs): seeded change C06-s1 needs one and is missed",
              "exceptions thrown by queued functors"])
